@@ -33,6 +33,13 @@ def main():
         junk.append(programs.generate(seed + 99, w).expr())
     del junk
     out = {}
+    # ... and, in every other child, code generated for an unrelated graph that calls a DIFFERENT loopy kernel of the
+    # same name as the ones below (a per-process table of callee names must not leak into the next generate_loopy)
+    lcalls = [int(x) for x in sys.argv[6].split(",")] if len(sys.argv) > 6 and sys.argv[6] else []
+    if lcalls and warmup % 4 == 2:
+        from harness.gen import loopycalls
+        for w in range(2):
+            pt.generate_loopy(loopycalls.history_graph(w))
 
     def h(s):
         return hashlib.sha256(s.encode()).hexdigest()[:20]
@@ -96,6 +103,33 @@ def main():
         except Exception as e:   # noqa: BLE001
             rec["error"] = f"{type(e).__name__}: {e}"
         out[f"m{j}"] = rec
+    if lcalls:
+        from harness.gen import loopycalls
+    for j in lcalls:
+        rec = {}
+        try:
+            expr = loopycalls.generate(j)
+            try:
+                prog = pt.generate_loopy(expr)
+                rec["dump"] = json.dumps(cexec.canonical_dump(prog.program), sort_keys=True, default=str)
+                rec["callees"] = sorted(str(n) for n in prog.program.callables_table)
+                rec["arg_order"] = [a.name for a in prog.program.default_entrypoint.args]
+                try:
+                    rec["cl"] = lp.generate_code_v2(prog.program).device_code()
+                except Exception as e:   # noqa: BLE001
+                    rec["cl_error"] = type(e).__name__
+                prog2 = pt.generate_loopy(loopycalls.generate(j))
+                rec["twice_same"] = (json.dumps(cexec.canonical_dump(prog2.program), sort_keys=True, default=str)
+                                     == rec["dump"]
+                                     and sorted(str(n) for n in prog2.program.callables_table) == rec["callees"])
+                if "cl" in rec:
+                    rec["twice_same"] = rec["twice_same"] and \
+                        lp.generate_code_v2(prog2.program).device_code() == rec["cl"]
+            except Exception as e:   # noqa: BLE001
+                rec["loopy_error"] = type(e).__name__ + ": " + str(e)[:100]
+        except Exception as e:   # noqa: BLE001
+            rec["error"] = f"{type(e).__name__}: {e}"
+        out[f"lc{j}"] = rec
     with open(outpath, "w") as f:
         json.dump(out, f)
 
